@@ -80,3 +80,43 @@ pub fn run_match(args: &[&str]) -> String {
         b01(rr.match_qclass(qclass))
     )
 }
+
+pub fn run_matchn(args: &[&str]) -> String {
+    let v: Vec<Option<u128>> = args.iter().map(|a| hex_to_u128(a)).collect();
+    if v.len() != 4 || v.iter().any(|x| x.map_or(true, |x| x >= 65536)) {
+        return "BADCASE".into();
+    }
+    let (rt, rc, qt, qc) = (v[0].unwrap() as u16, v[1].unwrap() as u16, v[2].unwrap() as u16, v[3].unwrap() as u16);
+    let (class, qclass) = match (CLASS::try_from(rc), QCLASS::try_from(qc)) {
+        (Ok(a), Ok(b)) => (a, b),
+        _ => return "BADCASE".into(),
+    };
+    let qtype = QTYPE::try_from(qt).unwrap_or(QTYPE::TYPE(TYPE::from(qt)));
+    let null = simple_dns::rdata::NULL::new(&[1u8]).unwrap();
+    let rr = ResourceRecord::new(Name::new_unchecked("a"), class, 0, RData::NULL(rt, null));
+    format!("{} {} {}", ty_tok(rr.rdata.type_code()), b01(rr.match_qtype(qtype)), b01(rr.match_qclass(qclass)))
+}
+
+pub fn run_rrmatch(args: &[&str]) -> String {
+    if args.len() != 3 {
+        return "BADCASE".into();
+    }
+    let (d, qt, qc) = match (hex_to_bytes(args[0]), hex_to_u128(args[1]), hex_to_u128(args[2])) {
+        (Some(d), Some(a), Some(b)) if a < 65536 && b < 65536 => (d, a as u16, b as u16),
+        _ => return "BADCASE".into(),
+    };
+    let qclass = match QCLASS::try_from(qc) {
+        Ok(q) => q,
+        Err(_) => return "BADCASE".into(),
+    };
+    let qtype = QTYPE::try_from(qt).unwrap_or(QTYPE::TYPE(TYPE::from(qt)));
+    match simple_dns::verif_hooks::parse_rr_at(&d, 0) {
+        Ok((rr, _)) => format!(
+            "OK {} {} {}",
+            ty_tok(rr.rdata.type_code()),
+            b01(rr.match_qtype(qtype)),
+            b01(rr.match_qclass(qclass))
+        ),
+        Err(e) => err_line(&e),
+    }
+}
